@@ -6,6 +6,7 @@ import (
 	"os"
 	"strconv"
 	"strings"
+	"sync"
 )
 
 // Sx is an integer s-expression (the wire format shared with the Coq models).
@@ -84,14 +85,18 @@ func (c *CaseWriter) Close() {
 
 // Namer renames strings to small integers by first occurrence (0 is reserved
 // for the empty string).
+// Namer is used from every goroutine of a scenario (store-call encoders run before their goroutine parks).
 type Namer struct {
-	m map[string]int
-	r []string
+	mu sync.Mutex
+	m  map[string]int
+	r  []string
 }
 
 func newNamer() *Namer { return &Namer{m: map[string]int{"": 0}, r: []string{""}} }
 
 func (n *Namer) Id(s string) int {
+	n.mu.Lock()
+	defer n.mu.Unlock()
 	if v, ok := n.m[s]; ok {
 		return v
 	}
@@ -101,4 +106,8 @@ func (n *Namer) Id(s string) int {
 	return v
 }
 
-func (n *Namer) Name(i int) string { return n.r[i] }
+func (n *Namer) Name(i int) string {
+	n.mu.Lock()
+	defer n.mu.Unlock()
+	return n.r[i]
+}
